@@ -19,12 +19,22 @@ from .oblig import prove_equal, reach
 PID = "C01"
 
 
+def _ui(p):
+    return p.ui_model(proactive_simplify=getattr(p, "proactive_simplify", False))
+
+
+def with_proactive(p):
+    q = p.restrict(pid=p.id + "+proactive_simplify")
+    q.proactive_simplify = True
+    return q
+
+
 def concrete_model(p, cse, env):
     """The real, unshimmed code in floats: returns {state name: value} read by harness-sorted index."""
     from formak import python
 
     with quiet():
-        pm = python.compile(p.ui_model(), pyh.float_calibration_map(p, env), config=pyh.py_config(cse))
+        pm = python.compile(_ui(p), pyh.float_calibration_map(p, env), config=pyh.py_config(cse))
         out = pm.model(float(env[p.dt]), pm.State(**{s: float(env[s]) for s in p.state}), pm.Control(**{c: float(env[c]) for c in p.control}))
     ss = p.s_state()
     return {s: float(out.data[ss.index(s), 0]) for s in p.state}
@@ -45,7 +55,7 @@ def task(pd, cse, tier, seed):
     # --- encoding validation + concrete behaviour of the real code on valid inputs
     names = list(env)
     pts = pyh.seeded_points(names, seed + 17, n=2)
-    if p.id.startswith("P1"):
+    if p.id == "P1-xy":
         pts.insert(0, {"x": 1.0, "y": 1.0, "a": 0.2, "dt": 0.1})
     concrete = []
     for pt in pts:
@@ -61,7 +71,7 @@ def task(pd, cse, tier, seed):
     # --- symbolic execution of the real code
     def harness():
         with installed(), quiet():
-            pm = python.compile(p.ui_model(), pyh.sym_calibration_map(p, env), config=pyh.py_config(cse))
+            pm = python.compile(_ui(p), pyh.sym_calibration_map(p, env), config=pyh.py_config(cse))
             out = pm.model(SymReal(env[p.dt]), pm.State(**pyh.sym_state_kwargs(p.state, env)), pm.Control(**pyh.sym_state_kwargs(p.control, env)))
         return out
 
@@ -109,7 +119,7 @@ def task_cse_pair(pd, tier, seed):
 
         def harness():
             with installed(), quiet():
-                pm = python.compile(p.ui_model(), pyh.sym_calibration_map(p, env), config=pyh.py_config(cse))
+                pm = python.compile(_ui(p), pyh.sym_calibration_map(p, env), config=pyh.py_config(cse))
                 return pm.model(SymReal(env[p.dt]), pm.State(**pyh.sym_state_kwargs(p.state, env)), pm.Control(**pyh.sym_state_kwargs(p.control, env)))
 
         ls = explore(harness, assumes=assumes)
@@ -131,10 +141,10 @@ def task_cse_pair(pd, tier, seed):
 
 def programs_for(tier, seed):
     if tier == "quick":
-        ps = [CP.P1(), CP.P3(), CP.P8(), CP.P7()]
+        ps = [CP.P1(), CP.P3(), CP.P8(), CP.P7(), CP.P11(), with_proactive(CP.P3())]
         ps += [CP.P3().restrict(control=False, calibration=True), CP.P3().restrict(control=True, calibration=False)]
         return ps
-    ps = CP.all_fixed()
+    ps = CP.all_fixed() + [CP.P11(), with_proactive(CP.P3()), with_proactive(CP.P10()), with_proactive(CP.P7())]
     ps += CP.presence_variants(CP.P3())[1:] + CP.presence_variants(CP.P10())[1:]
     ps += [CP.random_program(seed, i) for i in range(10)]
     return ps
